@@ -313,6 +313,20 @@ def well_formed(g: Grammar) -> bool:
 # ----------------------------------------------------------------- analysis helpers
 
 
+def grammar_features(g: Grammar) -> List[str]:
+    """Input-class features of a grammar (used to identify known findings by the class
+    of grammar that fails, never by seed)."""
+    can = canonical(g)
+    out = set()
+    unit = {nt: {alt[0] for alt in alts if len(alt) == 1 and is_nt(alt[0])} for nt, alts in can.items()}
+    for a, us in unit.items():
+        # <A> ::= ... | <B> | <C>  with  <B> ::= ... | <C> : grammar_graph (third-party)
+        # then judges the valid tree A -> C invalid
+        if any(b != c and c in unit.get(b, ()) for b in us for c in us):
+            out.add("grammar:unit_alternative_shortcut")
+    return sorted(out)
+
+
 def terminals_below(g: Grammar, nt: str) -> List[str]:
     can = canonical(g)
     r = reach(g)
